@@ -2022,9 +2022,16 @@ func genInnerCmpCase(r *rand.Rand, id int) Case {
 	op := pick(r, []string{">", ">", ">=", ">=", "<", "<=", "==", "!="})
 	pre, suf := "", ""
 	clause := pick(r, []string{" by (lvl)", " by (lvl)", " without (host)", " without (host)", "", " by (app, lvl)", " by (host)", " without (lvl, app)"})
-	if r.Intn(3) == 0 {
+	switch r.Intn(8) {
+	case 0, 1:
 		suf = clause
-	} else {
+	case 2:
+		// both places written: planByWithout takes the LAST clause that is there (the suffix)
+		pre, suf = pick(r, []string{" by (host)", " without (lvl)", " by (app)"}), clause
+		if suf == "" {
+			suf = " by (lvl)"
+		}
+	default:
 		pre = clause
 	}
 	outer := ""
